@@ -39,7 +39,7 @@ def strategy():
     small = st.integers(0, 8)
     return st.fixed_dictionaries({
         'classes': worldops.classes_strategy(3, 9),
-        'ents': st.lists(st.integers(0, 9 ** 4 - 1).map(
+        'ents': st.lists(worldops.packed(9 ** 4).map(
             lambda p: [p % 9, p // 9 % 9, p // 81 % 9, p // 729 % 9][:1 + p % 4]), min_size=1, max_size=4),
         'procs': st.lists(small, max_size=5),
         # churn: 0, or how many detach / re-attach cycles (components) and remove / re-add cycles (processors) the
